@@ -387,6 +387,9 @@ impl XType {
                 Some(bind)
             }
             (Self::XCallable(ref a), Self::XCallable(ref b)) => {
+                if a.param_types.len() != b.param_types.len() {
+                    return None;
+                }
                 let mut total_binds = Bind::new();
                 for (a_type, b_type) in a.param_types.iter().zip(b.param_types.iter()) {
                     if let Some(binds) = a_type.bind_in_assignment(b_type) {
